@@ -19,7 +19,7 @@ RULE = ("full matrix of metadata_path {absent, given} x memory_cache_mb {absent,
         "jinja template parameters, environment JSON file with nested relative references}; each configured "
         "object's behaviour vector is compared with the one built from constructor arguments on a parallel "
         "directory tree; plus explicit-argument-overrides-file cases, repository priority orders with duplicated "
-        "cluster names (all orders of 3 repositories, prepend/append), and Environment(env.to_dict()) dumps; "
+        "cluster names (all orders of 3 repositories, prepend/append; random histories of look-ups - hits and misses - interleaved with repositories appended / prepended later, live environment and its rebuilt dump), and Environment(env.to_dict()) dumps; "
         "non-trivial = distinct option combinations with at least one non-default option")
 ASSUMPTIONS = ["behaviour, not attributes, is compared: where files appear, whether reads of 3 value sizes hit a "
                "cache, whether writes happen, whether forget is rejected, whether a body runs"]
@@ -48,6 +48,8 @@ def cases(tier, seed):
     for i, perm in enumerate(itertools.permutations(range(3))):
         for extra in ("none", "prepend", "append"):
             yield {"kind": "order", "perm": list(perm), "extra": extra, "idx": i}
+    for i in range(60 if tier == "quick" else 1500):  # look-ups interleaved with repositories added later
+        yield {"kind": "resolve_history", "idx": i, "seed": seed}
     for i in range(256):  # which options the configuration has x which options are given explicitly
         yield {"kind": "override", "idx": i, "seed": seed, "cfg_mask": i >> 4, "arg_mask": i & 15}
     dumps = [c for c in combos if c["form"] in ("cluster", "repo_json")]
@@ -311,6 +313,63 @@ def run_order(case, out, fail, sc):
     out["sample"] = {"order": [r.name for r in ordered], "extra": case["extra"]}
 
 
+def run_resolve_history(case, out, fail, sc):
+    """Look-ups (hits and misses) interleaved with append_repo / prepend_repo on one live Environment; after
+    every step the live environment and the environment rebuilt from its dump must resolve every name to the
+    first repository in the current priority order that defines it, or to nothing."""
+    import twosigma.memento as m
+
+    rng = core.rng_for(case["seed"], ID, "resolve", case["idx"])
+    names = ["n0", "n1", "n2", "n3"]
+    count = [0]
+
+    def repo():
+        count[0] += 1
+        i = count[0]
+        defined = rng.sample(names, rng.randint(1, 3))
+        return m.ConfigurationRepository(name="r%d" % i, clusters={
+            n: m.FunctionCluster(name=n, storage=env.fs_backend(sc.path("r%d_%s" % (i, n)))) for n in defined})
+
+    ordered = [repo() for _ in range(rng.randint(0, 2))]
+    e = m.Environment(name="e", base_dir=sc.path("base"), repos=list(ordered))
+    trace = ["init " + "/".join("%s%s" % (r.name, sorted(r.clusters)) for r in ordered)]
+    for step in range(rng.randint(6, 12)):
+        r = rng.random()
+        if r < 0.55:
+            name = rng.choice(names + ["nowhere"])
+            trace.append("get " + name)
+            look = [name]
+        else:
+            rp = repo()
+            if r < 0.8:
+                e.append_repo(rp)
+                ordered = ordered + [rp]
+                trace.append("append %s%s" % (rp.name, sorted(rp.clusters)))
+            else:
+                e.prepend_repo(rp)
+                ordered = [rp] + ordered
+                trace.append("prepend %s%s" % (rp.name, sorted(rp.clusters)))
+            look = names if rng.random() < 0.5 else [rng.choice(names)]
+        e2 = m.Environment(json.loads(json.dumps(e.to_dict()))) if rng.random() < 0.4 else None
+        for name in look:
+            want = next((rr.clusters[name] for rr in ordered if name in rr.clusters), None)
+            got = e.get_cluster(name)
+            out["obs"]["resolutions_checked"] += 1
+            out["obs"]["resolutions_in_histories"] += 1
+            if got is not want:
+                fail("a cluster name does not resolve to the first repository in priority order that defines it",
+                     "history %s: name %r resolved to %s expected %s" % (
+                         trace, name, getattr(got, "storage", None) and got.storage.config_path,
+                         want and want.storage.config_path))
+            if e2 is not None:
+                got2 = e2.get_cluster(name)
+                if (got2 is None) != (want is None) or (want is not None and got2.storage.config_path != want.storage.config_path):
+                    fail("dump of an environment changes which repository defines a cluster",
+                         "history %s: name %r in the rebuilt environment -> %s expected %s" % (
+                             trace, name, got2 and got2.storage.config_path, want and want.storage.config_path))
+    out["sample"] = {"history": trace}
+
+
 def run_override(case, out, fail, sc):
     import twosigma.memento as m
     from twosigma.memento.storage_filesystem import FilesystemStorageBackend
@@ -369,6 +428,8 @@ def run_case(case):
             run_matrix(case, out, fail, sc, dump=True)
         elif case["kind"] == "order":
             run_order(case, out, fail, sc)
+        elif case["kind"] == "resolve_history":
+            run_resolve_history(case, out, fail, sc)
         else:
             run_override(case, out, fail, sc)
     if case["kind"] in ("matrix", "dump") and (case["meta"] or case["cache"] or case["ro"] is not None or case["stype"] != "filesystem"):
@@ -379,5 +440,5 @@ def run_case(case):
 
 def conclude(agg):
     return core.first(core.need(agg, "vectors_compared", 150), core.need(agg, "dump_vectors_compared", 30),
-                      core.need(agg, "resolutions_checked", 100), core.need(agg, "override_vectors_compared", 200),
+                      core.need(agg, "resolutions_checked", 100), core.need(agg, "resolutions_in_histories", 100), core.need(agg, "override_vectors_compared", 200),
                       core.need(agg, "runner_behaviours_checked", 100)), {"exhaustive": True}
